@@ -1,6 +1,7 @@
 """C14 harness: Metric.evaluate_example of every built-in metric class against
 (a) an independent float64 / pure-python reference written from the docstrings
 (oracle) and (b) the Gallina model Model/C14_Model.v evaluated inside Coq."""
+import json
 import math
 from fractions import Fraction
 
@@ -72,6 +73,23 @@ def _row(rng, c, mode):
     a, b = rng.randrange(-3, 4), rng.randrange(-3, 4)
     return [rng.choice([a, b]) for _ in range(c)]
   return [rng.randrange(-3, 4) for _ in range(c)]
+
+
+SWEEP = ['0', '-0.0', '2e-38', '-2e-38', '1e-30', '1e-7', '5e-7', '1e-6', '1', '-1', '1e6', '-1e6', '1e30', '-1e30', '3e38',
+         '-3e38', 'inf', '-inf']
+SWEEP_CE = ['0', '2e-38', '1e-30', '1e-7', '5e-7', '1e-6', '1', '-1', '1e6', '-1e6', '1e30', '-1e30']
+
+
+def _sweep_rows(rng, case):
+  """Magnitude sweep (wave 4 item 3) incl. +-inf PREDICTIONS (item 4) for the order-based metrics: no logits mask."""
+  pal = SWEEP_CE if case['metric'] in CE_METRICS else SWEEP
+  sub = rng.sample(pal, rng.choice([2, 3, 5]))       # few distinct values: ties across magnitudes
+  if case['metric'] in USES_PRED_SEQ:
+    case['pred'] = [[rng.choice(sub) for _ in r] for r in case['pred']]
+  else:
+    case['pred'] = [rng.choice(sub) for _ in case['pred']]
+  case['args'].pop('lm', None)
+  case['sweep'] = True
 
 
 def _mode(rng):
@@ -194,19 +212,51 @@ def _one_case(rng, metric, c=None, length=None):
         args['oovs'] = [16777216]
       if metric == 'SequenceTruncationRate':
         args['eos'] = 16777218
+  if case['pred'] is not None and rng.random() < 0.12:
+    _sweep_rows(rng, case)
   case['form'] = _form(rng, case)
+  if case.get('sweep'):
+    case['form']['pdtype'] = 'float32'
   return case
 
 
 def _with_domain(rng, case):
   nd = rng.choice([1, 2, 3, 4])
+  if case['metric'] == 'ConfusionMatrix':      # a non-scalar base: D == n, D == 1 and D != n
+    nd = rng.choice([case['args']['nc'] or 1, 1, case['args']['nc'] + 1, 2])
+  elif not isinstance(case['y'], int) and case['args'].get('pp'):
+    nd = rng.choice([len(case['y']), 1, 2, 3])     # D == length of a per-position statistic
   dkey = rng.choice(['domain_id', 'domain_id', 'dom', ''])
   if dkey == case['keys'][0]:
     dkey = 'domain_id'
-  return {**case, 'dom': [nd, rng.randrange(nd)], 'dkey': dkey}
+  out = {**case, 'dom': [nd, rng.randrange(nd)], 'dkey': dkey}
+  if rng.random() < 0.25:                       # PerDomainMetric(PerDomainMetric(m, D1), D2): D2 == D1, == 1, != D1
+    nd2 = rng.choice([nd, 1, nd + 1, 2])
+    out['dom2'] = [nd2, rng.randrange(nd2)]
+  return out
+
+
+FLAG_SETTINGS = [{'JAX_ENABLE_X64': '1'}]
+
+
+def _run_flags(case):
+  import os
+  import subprocess
+  import sys
+  env = dict(os.environ)
+  env.update(case['env'])
+  p = subprocess.run([sys.executable, os.path.join(os.path.dirname(os.path.abspath(__file__)), 'c14c06_flagworker.py'),
+                      'c14', 'quick', str(case['seed']), str(case['limit'])], env=env, capture_output=True, text=True, timeout=1500)
+  for line in p.stdout.split('\n'):
+    if line.startswith('FLAGWORKER '):
+      return json.loads(line[len('FLAGWORKER '):])
+  return {'ran': 0, 'violations': [['flag-worker-failed', (p.stderr or p.stdout)[-400:], None]]}
 
 
 def generate(tier, rng):
+  if tier == 'thorough':
+    for env in FLAG_SETTINGS:      # the harness's own quick cases in a fresh process under a non-default global flag
+      yield {'kind': 'flags', 'env': env, 'seed': rng.randrange(1000), 'limit': 300}
   per = {'quick': 85, 'thorough': 600, 'search': 900}.get(tier, 70)
   # structured corners first: k grid x ties for the top-k metrics, fully masked sequences
   for k in range(-7, 10):
@@ -293,6 +343,8 @@ def _metric(case):
       m = M.PerDomainMetric(base=m, num_domains=case['dom'][0], domain_id_key=dkey)
     else:
       m = M.PerDomainMetric(m, case['dom'][0])
+    if case.get('dom2'):
+      m = M.PerDomainMetric(m, case['dom2'][0], domain_id_key='outer_domain')
   return m
 
 
@@ -309,6 +361,8 @@ def _example(case):
   ex = {tk: target}
   if case['dom'] is not None:
     ex[case.get('dkey', 'domain_id')] = wrap(np.array(case['dom'][1], dtype=np.int32)) if form['arr'] == 'jax' else int(case['dom'][1])
+  if case.get('dom2'):
+    ex['outer_domain'] = wrap(np.array(case['dom2'][1], dtype=np.int32))
   if form['arr'] == 'numpy':
     ex = types.MappingProxyType(ex)      # a read-only Mapping instead of a dict
   if case['pred'] is None:
@@ -400,6 +454,8 @@ def _extras(case, metric, ex, pred, obs):
 
 
 def run(case):
+  if case.get('kind') == 'flags':
+    return _run_flags(case)
   from fedjax.core import metrics as M
   metric = _metric(case)
   ex, pred = _example(case)
@@ -429,7 +485,10 @@ def run(case):
   if side is not None:
     if case['dom'] is not None:
       side = M.PerDomainMetric(side, case['dom'][0], domain_id_key=case.get('dkey', 'domain_id'))
-    obs['side'] = _eval(side, ex, pred)
+    if case.get('dom2'):
+      side = None
+    if side is not None:
+      obs['side'] = _eval(side, ex, pred)
   return obs
 
 
@@ -528,7 +587,15 @@ def _ref(case):
   for j in range(nd):   # statistics of domain j: the base statistic iff the example belongs to domain j
     acc2 += acc if j == d else [0] * len(acc)
     wt2 += wt if j == d else [0] * len(wt)
-  return (kind, [nd] + shape, acc2, wt2)
+  kind, shape, acc, wt = (kind, [nd] + shape, acc2, wt2)
+  if case.get('dom2'):
+    nd2, d2 = case['dom2']
+    acc3, wt3 = [], []
+    for j in range(nd2):
+      acc3 += acc if j == d2 else [0] * len(acc)
+      wt3 += wt if j == d2 else [0] * len(wt)
+    kind, shape, acc, wt = (kind, [nd2] + shape, acc3, wt3)
+  return (kind, shape, acc, wt)
 
 
 def _frac(x):
@@ -558,6 +625,8 @@ def _corner(case):
     tags.append('per-position')
   if case['dom'] is not None:
     tags.append('per-domain')
+  if case.get('dom2'):
+    tags.append('nested')
   if case.get('nonfinite'):
     tags.append('nonfinite-base')
   return tags
@@ -641,9 +710,16 @@ def _extra_oracle(case, obs, ref):
 
 
 def oracle(case, obs):
+  if case.get('kind') == 'flags':
+    return [(k, f'under {case["env"]}: {w} (case {json.dumps(c)[:300]})') for k, w, c in obs['violations']]
   ref = _ref(case)
   out = _cmp(case, obs, ref, '')
   out += _extra_oracle(case, obs, ref)
+  if case.get('dom2') and case['args'].get('pp'):
+    # the outer wrapper selects between the inner statistic (D1, length) and inner.zero() of shape (D1,): the known
+    # zero()-shape defect surfacing inside evaluate_example (a broadcasting ValueError, or a mis-broadcast shape)
+    out = [(('per-domain.per-position.zero-shape', 'nested PerDomainMetric over a per-position base: ' + w)
+            if (k.endswith('.error') and obs.get('error') == 'ValueError') or k.endswith('.shape') else (k, w)) for k, w in out]
   name = case['metric']
   side = obs.get('side')
   if side is not None and 'error' not in obs:
@@ -680,17 +756,30 @@ def _lm(a):
   return '(Some ' + fw.clist([_ext(v) for v in a['lm']]) + ')'
 
 
-def _scores(rows):
-  return fw.clist([_zl([_zi(v) for v in r]) for r in rows])
+def _scores(rows, rank=None):
+  return fw.clist([_zl([_zi(v) if rank is None else rank[float(np.float32(float(v)))] for v in r]) for r in rows])
+
+
+def _ranks(case):
+  """Order-preserving integer relabelling of the float32 scores (sweep cases: the order-based metrics depend on the
+  scores only through their order and ties; there is no logits mask in these cases)."""
+  rows = case['pred'] if case['metric'] in USES_PRED_SEQ else [case['pred']]
+  vals = sorted({float(np.float32(float(v))) for r in rows for v in r})
+  return {v: i for i, v in enumerate(vals)}
 
 
 def encode(case, obs):
+  if case.get('kind') == 'flags':
+    return None
+  if case.get('dom2'):
+    return None   # nested wrappers: oracle only (C14_per_domain_restricts is polymorphic in the base statistic)
   if case.get('nonfinite'):
     return None   # the model has no non-finite statistic; these cases are judged by the oracle
   name, a = case['metric'], case['args']
   masked = _zl(a['masked'] if 'masked' in a else [0])
+  rank = _ranks(case) if case.get('sweep') and name not in CE_METRICS else None
   if name in USES_PRED_ONE:
-    s = _zl([_zi(v) for v in case['pred']])
+    s = _zl([_zi(v) for v in case['pred']]) if rank is None else _scores([case['pred']], rank)[1:-1]
     t = fw.zlit(case['y'])
     if name == 'CrossEntropyLoss':
       b = f'KCE {fw.qlit(_ce(_masked_scores(case["pred"], None), case["y"]))}'
@@ -708,9 +797,9 @@ def encode(case, obs):
     elif name == 'SequenceCrossEntropyLoss':
       b = f'KSeqCE {masked} {ts} {fw.qlist(_token_ces(case))}'
     elif name == 'SequenceTokenAccuracy':
-      b = f'KSeqTokAcc {masked} {_lm(a)} {pp} {ts} {_scores(case["pred"])}'
+      b = f'KSeqTokAcc {masked} {_lm(a)} {pp} {ts} {_scores(case["pred"], rank)}'
     elif name == 'SequenceTokenTopKAccuracy':
-      b = f'KSeqTokTopK {fw.zlit(a["k"])} {masked} {_lm(a)} {pp} {ts} {_scores(case["pred"])}'
+      b = f'KSeqTokTopK {fw.zlit(a["k"])} {masked} {_lm(a)} {pp} {ts} {_scores(case["pred"], rank)}'
     elif name == 'SequenceTokenCount':
       b = f'KTokCount {masked} {ts}'
     elif name == 'SequenceCount':
@@ -735,12 +824,16 @@ def encode(case, obs):
 
 
 def nontrivial(case, obs):
+  if case.get('kind') == 'flags':
+    return obs.get('ran', 0) > 0
   if 'error' in obs:
     return True
   return any(v != 0 for v in obs['accum']) or bool(_corner(case))
 
 
 def describe(case, obs):
+  if case.get('kind') == 'flags':
+    return {'flags': json.dumps(case['env']), 'flag_cases_ran': obs.get('ran', 0)}
   d = {'metric': case['metric'], 'per_domain': case['dom'] is not None}
   for t in _corner(case):
     d['corner_' + t] = True
@@ -750,6 +843,10 @@ def describe(case, obs):
     d['tie_at_max'] = s.count(max(s)) > 1
   else:
     d['length'] = len(case['y'])
+    if case['pred'] is not None:
+      # hypothesis `0 <= t < classes` of C14_topk_ge_classes_is_one / C14_topk_is_rank: masked values such as -1 fall
+      # outside; such targets only ever carry weight 0 (the generator never makes an out-of-range target real)
+      d['targets_all_in_class_range'] = all(0 <= t < len(case['pred'][0]) for t in case['y'])
   if 'lm' in case['args']:
     d['logits_mask_inf'] = any(math.isinf(_fl(v)) for v in case['args']['lm'])
   d['error'] = obs.get('error', 'none')
@@ -757,6 +854,8 @@ def describe(case, obs):
 
 
 def shrink(case):
+  if case.get('kind') == 'flags':
+    return
   if case['dom'] is not None:
     yield {**case, 'dom': None}
   if case['keys'] != ['y', None]:
